@@ -90,7 +90,8 @@ VALUE_GROUPS = [
 # positions that see many sibling classes and None: more union members than RewriteLargeUnion's default maximum
 WIDE_GROUPS = [
     ["X1()", "X2()", "X3()", "X4()", "X5()", "X6()", "None"], ["A()", "B()", "C()", "D()", "M()", "None"], ["E1()", "E2()", "E3()", "E4()", "E5()", "E6()", "None"],
-    ["(1,)", "(1, 2)", "(1, 2, 3)", "()", "('a',)", "('a', 'b')", "None"], ["A()", "B()", "C()", "D()", "M()", "1"], ["X1()", "X2()", "X3()", "X4()", "X5()", "R1()"],
+    ["(1,)", "(1, 2)", "(1, 2, 3)", "()", "('a',)", "('a', 'b')", "None"],
+    ["(1,)", "(1, 2)", "(1, 2, 3)", "('a',)", "('a', 'b')", "('a', 'b', 'c')", "(1.5,)"], ["A()", "B()", "C()", "D()", "M()", "1"], ["X1()", "X2()", "X3()", "X4()", "X5()", "R1()"],
 ]
 POOL = [e for e in gv.BASIS if "make_gen" not in e and "lambda" not in e]
 
